@@ -1,0 +1,23 @@
+//go:build verif
+
+// Contracts for package accum (comment-only; read by /verif/vcgo, build tag verif).
+// Only RawSection / RawSectionSize (property C16: a CAR section is uvarint(len(cid)+len(data)) ++ cid ++ data).
+package accum
+
+// Both functions are built on two external calls that vcgo does not model: (cid.Cid).Bytes() (go-cid) and
+// leb128.FromUInt64 (go-leb128). An unmodelled external call returns an arbitrary value at every call, so
+//   - the two calls of obj.Cid.Bytes() inside RawSection are not known to return the same bytes,
+//   - RawSectionSize() == len(RawSection()) and "prefix == uvarint(len(cid)+len(data))" cannot be stated, let alone proved.
+// What is stated below is the part that does not depend on them: the section ends with the object data, unmodified,
+// the result is a fresh slice, no error is ever returned, nothing is written.
+
+//@ func (ObjectWithMetadata) RawSection
+//@   mode int
+//@   ensures result1 == nil
+//@   ensures fresh(result0)
+//@   ensures len(result0) >= len(obj.ObjectData)
+//@   ensures forall j int :: 0 <= j && j < len(obj.ObjectData) ==> result0[len(result0)-len(obj.ObjectData)+j] == obj.ObjectData[j]
+
+//@ func (ObjectWithMetadata) RawSectionSize
+//@   mode int
+//@   ensures result >= len(obj.ObjectData)
